@@ -88,7 +88,7 @@ def unit_operator(u, res):
                 op = C.operator(opname, sstr('f'))
             else:
                 op = C.operator(opname)
-            xv, _ = make_value(C, 'I', 'ctxx', cons)
+            xv, xspec = make_value(C, 'I', 'ctxx', cons)
             if ctxkind == 'hashmap':
                 mutable = True
                 mk = lambda: C.hashmap_context(variables=[('x', xv), ('s', C.v_str('a'))], disabled=z3.Bool('dis'))
@@ -110,7 +110,8 @@ def unit_operator(u, res):
             res.paths += len(outs)
             res.nontrivial_paths += sum(1 for o in outs if cons)
             record_panics(res, pr, name, outs, lambda m: '%s applied to %s (%s context)' % (opname, [spec_concrete(s, m) for s in specs], ctxkind),
-                          lambda o: 'panic in Operator::eval %s' % opname)
+                          lambda o: 'panic in Operator::eval %s' % opname,
+                          extra=lambda m: dict(opapply=dict(op=opname, args=[spec_concrete(s, m) for s in specs], ctxkind=ctxkind, ctxx=spec_concrete(xspec, m))))
             if len(res.samples) < 1 and cons:
                 res.samples.append(dict(unit=name, overflow_checks=ofc, paths=len(outs), outcomes=sorted(set(o.kind for o in outs))))
 
@@ -370,6 +371,30 @@ def replay_ce(ce):
             details.append('%s: %s' % (prof, p or 'no panic'))
             bad = bad or bool(p)
         return ('reproduced' if bad else 'not_reproduced'), details
+    if 'opapply' in ce:
+        # a well-formed application of a context-independent operator is realised as source text over variables holding the witness values
+        # (i64::MIN has no literal); `x op= b` uses the witness value of the context variable x
+        import c03
+        d = ce['opapply']
+        op = d['op']
+        args = [c03.tuple_fix(a) for a in d['args']]
+        asg = {'AddAssign': '+=', 'SubAssign': '-=', 'MulAssign': '*=', 'DivAssign': '/=', 'ModAssign': '%=', 'ExpAssign': '^=', 'AndAssign': '&&=', 'OrAssign': '||='}
+        expr = None
+        if op in c03.SYMBOL and len(args) == (1 if op in ('Neg', 'Not') else 2):
+            vars_ = [('a', args[0])] + ([('b', args[1])] if len(args) == 2 else [])
+            expr = ('a %s b' % c03.SYMBOL[op]) if len(args) == 2 else ('%sa' % c03.SYMBOL[op])
+        elif op in asg and len(args) == 2 and args[0] == ('String', 'x') and d.get('ctxkind') == 'hashmap':
+            vars_ = [('x', c03.tuple_fix(d['ctxx'])), ('b', args[1])]
+            expr = 'x %s b' % asg[op]
+        if expr is not None:
+            details = []
+            bad = False
+            for prof in ('dev', 'release'):
+                out = replay.run_cases(replay.case_text('c', 'eval_with_context_mut', expr, vars=vars_), prof)['c']
+                p = out.get('panic')
+                details.append('%s: `%s` with %s: %s' % (prof, expr, vars_, ('panic: ' + p) if p else 'no panic'))
+                bad = bad or bool(p)
+            return ('reproduced' if bad else 'not_reproduced'), details
     return 'not_reproduced', 'no native replay for this unit kind (malformed-arity operator application needs a hand-built tree)'
 
 
